@@ -56,6 +56,17 @@ Check C27_mutation_serial : forall w fuel cx rpath otn oimpls oid sels st visite
   is_subseq (map fst blocks) (map fst groups).
 Print Assumptions C27_mutation_serial.
 
+Example C27_nonvacuous :
+  exists visited groups,
+    ex_collect (ex_cfuel x_ab_cx) x_ab_cx (xs "Query") [] x_ab_sels [] [] = Some (visited, groups) /\
+    map fst groups = [xs "a"; xs "b"] /\
+    map (fun b => (fst b, map (fun c => (ec_obj c, ec_field c)) (snd b)))
+        (loop_blocks x_ab_world
+           (fun key fdef f0 rest => ex_field 10 x_ab_cx [PsKey key] (xs "Query") [] 0%N fdef f0 rest)
+           (ex_schema x_ab_cx) (xs "Query") groups []) =
+    [(xs "a", [(0%N, xs "a"); (1%N, xs "n")]); (xs "b", [(0%N, xs "b"); (2%N, xs "n")])].
+Proof. exact c27_nonvacuous. Qed.
+
 (* the theorem is not vacuous: with a join (alternate polling) of the two root fields of `{ a { n } b { n } }`
    instead of sequential await, two schedules give different call logs *)
 Theorem C27_concurrent_refuted :
